@@ -717,17 +717,58 @@ impl Harness for H {
             if !matches!(t, Tamper::Flip { .. } | Tamper::Truncate { .. } | Tamper::Extend { .. }) {
                 keys.extend(origs.keys().copied());
             }
-            for strict in [false, true] {
+            // Besides the two cold instances, metadata-level tampers are replayed
+            // against a WARM instance (every key read once before the backend is
+            // modified underneath it), once as is and once with the generation
+            // objects the cached documents point at moved away - the stale-pointer
+            // path re-reads the commit point, and what it re-reads is the forgery.
+            let meta_level = matches!(t, Tamper::Transplant { .. } | Tamper::Repoint { .. } | Tamper::Rewrite { .. }) || matches!(t, Tamper::SwapObjects { a, .. } if a.starts_with("meta/"));
+            for (strict, warm) in [(false, 0u8), (true, 0), (false, 1), (false, 2)] {
+                if warm > 0 && !meta_level {
+                    continue;
+                }
                 let mut cfg2 = SimConfig::simple(case.seed ^ 0x99);
                 cfg2.park = false;
                 cfg2.record_trace = false;
                 cfg2.start_ms = sim.clock().now_ms() + 10;
                 let sim2 = Sim::new(&cfg2);
                 sim2.install_clock_here();
-                let st2 = SimStore::new(sim2, d.fork());
-                let w2 = Wrapper::build(WrapperKind::Enc(case.chunk, strict), st2, 1000);
+                let st2 = SimStore::new(sim2, if warm > 0 { store.disk().fork() } else { d.fork() });
+                let w2 = Wrapper::build(WrapperKind::Enc(case.chunk, strict), st2.clone(), 1000);
                 let s2 = w2.store();
-                let ctx = || format!("tamper #{ti} {t:?} (strict={strict}, chunk={})", case.chunk);
+                if warm > 0 {
+                    for k in origs.keys() {
+                        let _ = block(s2.head(&key_path(*k)));
+                        let _ = block(read_full(s2.as_ref(), &key_path(*k)));
+                    }
+                    if !self.apply_tamper(st2.disk(), &base, t) {
+                        continue;
+                    }
+                    if warm == 2 {
+                        let mut evicted = 0u64;
+                        for (p, b) in SimStore::dump(st2.disk()) {
+                            let Some(loc) = p.strip_prefix("meta/") else { continue };
+                            let Some(old) = base.get(&p) else { continue };
+                            if *old == b {
+                                continue;
+                            }
+                            let g_of = |doc: &Bytes| cbor_map(doc).and_then(|m| match field(&m, "g") { Some(CV::Text(t)) => Some(t.clone()), _ => None });
+                            if let (Some(g0), g1) = (g_of(old), g_of(&b)) {
+                                if g1.as_deref() != Some(g0.as_str()) {
+                                    let _ = block(st2.disk().delete(&Path::from(format!("gen/{loc}/{g0}"))));
+                                    evicted += 1;
+                                }
+                            }
+                        }
+                        if evicted == 0 {
+                            continue;
+                        }
+                        rep.probe("warm_instance_with_cached_generation_moved_away", 1);
+                    } else {
+                        rep.probe("warm_instance_tampered_underneath", 1);
+                    }
+                }
+                let ctx = || format!("tamper #{ti} {t:?} (strict={strict}, chunk={}, instance={})", case.chunk, ["cold", "warm", "warm, cached generation objects removed"][warm as usize]);
                 // Compatibility mode (the default) documents one downgrade window: a
                 // document stripped of ALL its authentication fields is accepted as
                 // pre-auth legacy metadata. Violations reached through such compound
